@@ -28,6 +28,9 @@ var c13Patterns = map[string]*regexp.Regexp{
 	"a":   regexp.MustCompile(`(^|/)a[^/]*$`),
 	"x":   regexp.MustCompile(`x[^/]*$`),
 	"ac":  regexp.MustCompile(`(^|/)[a-c]+$`),
+	// "no dot in the final element": a base-name pattern that accepts the EMPTY final element of a name
+	// spelled with a trailing separator
+	"nodot": regexp.MustCompile(`(^|/)[^./]*$`),
 }
 
 // hiddenSnapshot: every regular file of the source whose (cleaned) name does not match
@@ -283,7 +286,7 @@ func c13Random(r *corr.Rand, tier string) []corr.Case {
 		n = 20000
 	}
 	h := corr.HexS
-	pids := []string{"txt", "a", "x", "ac"}
+	pids := []string{"txt", "a", "x", "ac", "nodot"}
 	var cases []corr.Case
 	for i := 0; i < n; i++ {
 		rr := r.Fork()
@@ -291,7 +294,7 @@ func c13Random(r *corr.Rand, tier string) []corr.Case {
 		l := append([]string{"case re " + corr.Pick(rr, pids)}, setup...)
 		var open []int
 		all := append(append([]string{}, c13Files...), c13Dirs...)
-		all = append(all, "/d/new.txt", "/d/newer", "/d/sub/x9", "/ab/../d/b.dat", "/d//a.txt")
+		all = append(all, "/d/new.txt", "/d/newer", "/d/sub/x9", "/ab/../d/b.dat", "/d//a.txt", "/d/b.dat/", "/d/a.txt/", "/d/sub/note.txt/.", "/zed/")
 		// names that are never directories: Create / write-open / Rename confuse files and directories
 		// otherwise, which is ill-formed for the source (a directory replaced by a file orphans its children)
 		nd := append(append([]string{}, c13Files...), "/d/new.txt", "/d/newer", "/d/sub/x9", "/ab/../d/b.dat", "/d//a.txt")
